@@ -31,7 +31,7 @@ EXHAUSTIVE = ["value lengths 0..64 for VISIBLE_STRING/OCTET_STRING/DOMAIN from t
 
 def plan(tier, seed):
     n = 16
-    return [{"part": i, "parts": n, "ods": 3 if tier == "quick" else 20, "histories": 60 if tier == "quick" else 600,
+    return [{"part": i, "parts": n, "ods": 3 if tier == "quick" else 80, "histories": 60 if tier == "quick" else 2500,
              "hist_len": 12 if tier == "quick" else 40, "cs": seed * 100 + i} for i in range(n)]
 
 
